@@ -145,7 +145,7 @@ CONTRACTS = [
     ),
     Contract(
         SL + "_build_digraph",
-        props=["C03", "C11", "C13"],
+        props=["C03", "C06", "C11", "C13"],
         params={"args": "list[StatementLineageHolder]", "metadata_provider": "MetaDataProvider"},
         requires={
             "statement_holders_well_formed": "forall(lambda j: implies(0 <= j and j < len(args), (lambda h: " + WF_H + ")(args[j])), j='int')",
